@@ -298,6 +298,8 @@ func (in *instantiator) skolem(q *Term, v *Term, ctxKey string) *Term {
 }
 
 var quantMemo sync.Map
+var statMu sync.Mutex
+var statInst, statSolve float64
 var debugInst = os.Getenv("GOVC_DEBUG_INST") != ""
 
 func containsQuant(t *Term) bool {
@@ -526,13 +528,45 @@ var solverSem = make(chan struct{}, 16)
 
 // Solve decides hyps |- goal. wantValues are ground scalar terms whose model
 // values are requested when the answer is sat.
-func Solve(name string, hyps []*Term, goal *Term, timeoutS, seed int, thorough bool) SolveResult {
+func Solve(name string, hyps []*Term, goal *Term, timeoutS, seed int, thorough bool, qfOnly bool) SolveResult {
 	asserts := append(append([]*Term{}, hyps...), Not(goal))
 	tag := sanitizeTag(name)
 	t0 := time.Now()
+	// stage 0: drop every quantified hypothesis (sound: fewer hypotheses); many
+	// safety and frame goals follow from the ground path facts alone
+	if !qfOnly {
+		var ground []*Term
+		nq := 0
+		for _, a := range asserts {
+			if containsQuant(a) {
+				nq++
+				continue
+			}
+			ground = append(ground, a)
+		}
+		if nq > 0 && !containsQuant(goal) {
+			gs := Script(ground, "", false)
+			solverSem <- struct{}{}
+			st0, _, _ := runSolver(context.Background(), solvers["z3-5.1.0"], gs, tag+"_g", 2, seed)
+			<-solverSem
+			if st0 == "unsat" {
+				return SolveResult{Status: "unsat", Solver: "z3-5.1.0", Stage: "ground", Seconds: time.Since(t0).Seconds()}
+			}
+		}
+	}
 	// stage 1: quantifier-free by instantiation
+	ti := time.Now()
 	qf, _ := instantiate(asserts, 5, 24, 400)
 	qfScript := Script(qf, "", true)
+	statMu.Lock()
+	statInst += time.Since(ti).Seconds()
+	statMu.Unlock()
+	ts := time.Now()
+	defer func() {
+		statMu.Lock()
+		statSolve += time.Since(ts).Seconds()
+		statMu.Unlock()
+	}()
 	solverSem <- struct{}{}
 	st, out, _ := runSolver(context.Background(), solvers["z3-5.1.0"], qfScript, tag+"_qf", timeoutS, seed)
 	<-solverSem
@@ -558,6 +592,9 @@ func Solve(name string, hyps []*Term, goal *Term, timeoutS, seed int, thorough b
 	}
 	qfOut := out
 	qfStatus := st
+	if qfOnly {
+		return SolveResult{Status: qfStatus, Solver: "z3-5.1.0", Stage: "qf", Seconds: time.Since(t0).Seconds(), Model: qfOut, QFScript: qfScript}
+	}
 	anyQuant := false
 	for _, a := range asserts {
 		if containsQuant(a) {
